@@ -49,6 +49,7 @@ MIN_REACH = {
     "harvester_crops_whose_harvester_is_chunked": {"quick": 25, "thorough": 80},
     "attempts_under_xarrays_new_combine_defaults": {"quick": 100, "thorough": 350},
     "farmers_whose_file_is_named_by_a_path_object": {"quick": 30, "thorough": 100},
+    "other_sessions_writes_that_kept_the_files_time_stamp": {"quick": 15, "thorough": 50},
 }
 TIME_BUDGET = {"quick": 400, "thorough": 3400}
 
@@ -331,12 +332,18 @@ def _run_case(ctx, case):
                         # session writes: conflicts must be judged against the file as it is at reap time
                         farmer.harvest_combos({"a": [200]}, verbosity=0)
                         ctx.count("harvesters_with_memory_before_the_other_session_wrote")
+                        # (the file keeps the modification time it has NOW through the other session's write: a coarse-
+                        #  grained file system, a file put in place with preserved times)
+                        hstat_ = os.stat(str(data_file))
                     if fail == "conflict" or case["idx"] % 2:
                         # pre-existing data: conflicting version at a=1 (conflict) or disjoint coordinates (a=100)
                         pre = xyzpy.Harvester(xyzpy.Runner(probe.Probe(pkind, name="dprobe"), var_names, resources={"version": 0 if fail == "conflict" else 1}),
                                               data_name=data_file)
                         pre.harvest_combos({"a": [1] if fail == "conflict" else [100]}, verbosity=0)
                         pre._full_ds.close()
+                        if "hstat_" in dir():
+                            os.utime(str(data_file), ns=(hstat_.st_atime_ns, hstat_.st_mtime_ns))
+                            ctx.count("other_sessions_writes_that_kept_the_files_time_stamp")
                 else:
                     data_file = os.path.join(tmp, "sdata.pkl")
                     if case["idx"] % 6 == 4:
